@@ -140,6 +140,9 @@ pub struct World {
     pub pk: BTreeMap<String, Address>,
     /// actor type -> target instance
     pub tgt: BTreeMap<String, Address>,
+    /// actor type -> an actor record with that code and NO state (never constructed): the target
+    /// of Constructor cells in success mode
+    pub blank: BTreeMap<String, Address>,
     pub root: Cid,
     pub base: BTreeMap<Address, ActorState>,
     pub deal_pending: u64,
@@ -545,6 +548,26 @@ impl World {
         tgt.insert("paych".into(), pc);
         tgt.insert("evm".into(), a["e1"]);
 
+        let mut blank = BTreeMap::new();
+        for (i, (t, code)) in [
+            ("system", *SYSTEM_ACTOR_CODE_ID), ("init", *INIT_ACTOR_CODE_ID), ("reward", *REWARD_ACTOR_CODE_ID),
+            ("cron", *CRON_ACTOR_CODE_ID), ("power", *POWER_ACTOR_CODE_ID), ("market", *MARKET_ACTOR_CODE_ID),
+            ("verifreg", *VERIFREG_ACTOR_CODE_ID), ("datacap", *DATACAP_TOKEN_ACTOR_CODE_ID), ("eam", *EAM_ACTOR_CODE_ID),
+            ("account", *ACCOUNT_ACTOR_CODE_ID), ("ethaccount", *ETHACCOUNT_ACTOR_CODE_ID), ("miner", *MINER_ACTOR_CODE_ID),
+            ("multisig", *MULTISIG_ACTOR_CODE_ID), ("paych", *PAYCH_ACTOR_CODE_ID), ("evm", *EVM_ACTOR_CODE_ID),
+        ].iter().enumerate() {
+            let addr = Address::new_id(UNKNOWN_ID + 100 + i as u64);
+            let deleg = if *t == "ethaccount" || *t == "evm" {
+                let mut sub = [0xcdu8; 20];
+                sub[19] = i as u8;
+                Some(Address::new_delegated(EAM_ACTOR_ID, &sub).unwrap())
+            } else {
+                None
+            };
+            v.set_actor(&addr, new_actor(*code, EMPTY_ARR_CID, 0, TokenAmount::zero(), deleg));
+            blank.insert(t.to_string(), addr);
+        }
+
         // where the plain sector lives
         let st: MinerState = v.state(&m1).unwrap();
         let loc = (dl, part);
@@ -558,6 +581,7 @@ impl World {
             a,
             pk,
             tgt,
+            blank,
             root,
             base,
             deal_pending: pr.ids[0],
@@ -635,6 +659,15 @@ impl World {
         let in_a = self.fixture == "A";
         let base = name.strip_suffix("Exported").unwrap_or(name);
         if kind == "undefined" {
+            // the FRC-42 number an internal-only method would get if exported: send what that method
+            // takes, so that an alias added for it would really run
+            if let Some(internal) = name.strip_prefix("frc42:") {
+                if internal != "Undefined" {
+                    let mut c = self.params(t, internal, var, cls, success, "method");
+                    c.succ = false;
+                    return c;
+                }
+            }
             return Call::new(None, false);
         }
         if kind == "fallback" {
@@ -668,24 +701,27 @@ impl World {
         };
         match (t, base) {
             // ---------------------------------------------------------------- constructors
+            // (success mode sends Constructor to a never-constructed actor of the type, see run_cell)
             ("system", "Constructor") | ("power", "Constructor") | ("market", "Constructor")
-            | ("eam", "Constructor") | ("ethaccount", "Constructor") => Call::new(None, false),
-            ("init", "Constructor") => Call::new(blk(&fil_actor_init::ConstructorParams { network_name: "x".into() }), false),
-            ("reward", "Constructor") => Call::new(blk(&fil_actor_reward::ConstructorParams { power: Some(BigIntDe(BigInt::from(0))) }), false),
-            ("cron", "Constructor") => Call::new(blk(&fil_actor_cron::ConstructorParams { entries: vec![] }), false),
-            ("verifreg", "Constructor") => Call::new(blk(&fil_actor_verifreg::ConstructorParams { root_key: a["root"] }), false),
-            ("datacap", "Constructor") => Call::new(blk(&fil_actor_datacap::ConstructorParams { governor: a["verifreg"] }), false),
-            ("account", "Constructor") => Call::new(blk(&fil_actor_account::types::ConstructorParams { address: self.pk["spare"] }), false),
-            ("miner", "Constructor") => Call::new(blk(&miner_ctor()), false),
+            | ("ethaccount", "Constructor") => Call::new(None, s),
+            // the EAM refuses to be constructed anywhere but at f010, before looking at the caller
+            ("eam", "Constructor") => Call::new(None, false),
+            ("init", "Constructor") => Call::new(blk(&fil_actor_init::ConstructorParams { network_name: "x".into() }), s),
+            ("reward", "Constructor") => Call::new(blk(&fil_actor_reward::ConstructorParams { power: Some(BigIntDe(BigInt::from(0))) }), s),
+            ("cron", "Constructor") => Call::new(blk(&fil_actor_cron::ConstructorParams { entries: vec![] }), s),
+            ("verifreg", "Constructor") => Call::new(blk(&fil_actor_verifreg::ConstructorParams { root_key: a["root"] }), s),
+            ("datacap", "Constructor") => Call::new(blk(&fil_actor_datacap::ConstructorParams { governor: a["verifreg"] }), s),
+            ("account", "Constructor") => Call::new(blk(&fil_actor_account::types::ConstructorParams { address: self.pk["spare"] }), s),
+            ("miner", "Constructor") => Call::new(blk(&miner_ctor()), s).val(if s { whole(200) } else { atto(0) }),
             ("multisig", "Constructor") => Call::new(blk(&fil_actor_multisig::ConstructorParams {
-                signers: vec![a["spare"]], num_approvals_threshold: 1, unlock_duration: 0, start_epoch: 0 }), false),
-            ("paych", "Constructor") => Call::new(blk(&fil_actor_paych::ConstructorParams { from: a["payer"], to: a["payee"] }), false),
-            ("evm", "Constructor") => Call::new(blk(&contract_ctor()), false),
+                signers: vec![a["spare"]], num_approvals_threshold: 1, unlock_duration: 0, start_epoch: 0 }), s),
+            ("paych", "Constructor") => Call::new(blk(&fil_actor_paych::ConstructorParams { from: a["payer"], to: a["payee"] }), s),
+            ("evm", "Constructor") => Call::new(blk(&contract_ctor()), s),
 
             // ---------------------------------------------------------------- init
             ("init", "Exec") => {
                 let (code, ctor, ok) = match var {
-                    "multisig" => (*MULTISIG_ACTOR_CODE_ID, RawBytes::serialize(&fil_actor_multisig::ConstructorParams {
+                    "multisig" | "" => (*MULTISIG_ACTOR_CODE_ID, RawBytes::serialize(&fil_actor_multisig::ConstructorParams {
                         signers: vec![a["spare"]], num_approvals_threshold: 1, unlock_duration: 0, start_epoch: 0 }).unwrap(), true),
                     "paych" => (*PAYCH_ACTOR_CODE_ID, RawBytes::serialize(&fil_actor_paych::ConstructorParams {
                         from: a["payer"], to: a["payee"] }).unwrap(), true),
@@ -993,7 +1029,7 @@ impl World {
         let success = mode == "success";
         self.v.rollback(self.root);
         let from = self.sender(t, cls);
-        let to = self.tgt[t];
+        let to = if name == "Constructor" && success { self.blank[t] } else { self.tgt[t] };
         let call = self.params(t, name, var, cls, success, kind);
         let is_rcf = t == "miner" && name == "ReportConsensusFault" && success;
         if is_rcf {
